@@ -186,8 +186,10 @@ def run_profiles(chk, prop, profiles, on, strict_too=True, timeout=900, tag="", 
     return nviol
 
 
-def model_check(chk, cfgname, what, workers=12, timeout=900, module="MC_Tree"):
-    res = tlc(module, cfgname, workers=workers, timeout=timeout, xmx="8g")
+def model_check(chk, cfgname, what, workers=12, timeout=900, module="MC_Tree", simulate=None, depth=None):
+    res = tlc(module, cfgname, workers=workers, timeout=timeout, xmx="8g", simulate=simulate, depth=depth)
+    if simulate and res.rc == 0 and "violated" not in res.out and "Error" not in res.out:
+        res.ok = True
     chk.add_tlc(res, what)
     if not res.ok:
         chk.error("model check %s did not pass (says nothing about the code): %s" % (cfgname, tlc_tail(res, 12)))
